@@ -144,8 +144,8 @@ equation_re = re.compile(
 
         # Current implementation nests the single-line verbatim case in the below
         (?: ^ \( .*?      [=]        .*? \) (?= \s* ) $ )|  # Brackets beginning on the left-hand side
-        (?: ^    \S+? \s* [=] \s* \( .*? \) (?= \s* ) $ )|  # Brackets beginning on the right-hand side
-        (?: ^    \S+? \s* [=] \s*    .*?    (?= \s* ) $ )   # Equation on a single line
+        (?: ^    \S [^=\n]*? [=] \s* \( .*? \) (?= \s* ) $ )|  # Brackets beginning on the right-hand side
+        (?: ^    \S [^=\n]*? [=] \s*    .*?    (?= \s* ) $ )   # Equation on a single line
     ''',
     re.DOTALL | re.MULTILINE | re.VERBOSE,
 )  # fmt: skip
